@@ -33,67 +33,14 @@
 (* fill/request; request after every fill when rq = 1, else at the end)    *)
 (* | "zip" (lena.flow.Zip of fill/compute branches)                        *)
 (***************************************************************************)
-EXTENDS Heap, Json
+EXTENDS IsolationSem, Json
 
 CONSTANTS MaxBr, MaxN, BufSizes, Templates,
           CopyMode      \* "deep" (the code), "shallow" / "none": what if the copies were weaker
 
-Branch(muts, end, stop, name) == [muts |-> muts, end |-> end, stop |-> stop, name |-> name]
-S1 == Branch(<<Inc("hits"), App(1)>>, "seq", None, "")
-S2 == Branch(<<Var("x", 7), MakeFn("A")>>, "seq", None, "")
-S3 == Branch(<<SetK("k", 5), Cnt("cnt")>>, "seq", None, "")
-S4 == Branch(<<SetN("n", "b", 9), Inc("hits")>>, "seq", None, "")
-F1 == Branch(<<Inc("hits"), App(2)>>, "store", None, "")
-F2 == Branch(<<MakeFn("B")>>, "store", 1, "")
-F3 == Branch(<<Inc("hits")>>, "count", None, "c1")
-F4 == Branch(<<>>, "count", None, "c1")
-R1 == Branch(<<Inc("hits"), App(3)>>, "fr", None, "")
-R2 == Branch(<<SetK("k", 6), SetN("n", "b", 4)>>, "fr", None, "")
-SRC == Branch(<<>>, "src", None, "")
-AllTemplates == {S1, S2, S3, S4, F1, F2, F3, F4, R1, R2, SRC}
-FewTemplates == {S1, S3, S4, F1, F3, R1, SRC}
-
-\* flow values "without pre-existing aliasing": every value has its own data list and context
-X(j) == [d |-> <<j>>,
-         c |-> CASE j % 3 = 1 -> [a |-> 1]
-                 [] j % 3 = 2 -> [a |-> 2, n |-> [b |-> 1]]
-                 [] OTHER -> <<>>]
-Flow(n) == [j \in 1..n |-> X(j)]
-
 RECURSIVE Seqs(_)
 Seqs(n) == IF n = 0 THEN {<<>>}
            ELSE LET Pr == Seqs(n - 1) IN Pr \cup {Append(p, a) : p \in {x \in Pr : Len(x) = n - 1}, a \in Templates}
-BufAll == {1, 2, None}
-IsFC(b) == b.end \in {"store", "count"}
-Min(a, b) == IF a < b THEN a ELSE b
-
-(***************************************************************************)
-(* Declarative: one branch alone on pure values.                           *)
-(***************************************************************************)
-HasCnt(b) == \E j \in 1..Len(b.muts) : b.muts[j].t = "cnt"
-CntName(b) == b.muts[CHOOSE j \in 1..Len(b.muts) : b.muts[j].t = "cnt"].key
-RECURSIVE BlocksOf(_, _)
-BlocksOf(xs, bs) == IF xs = <<>> THEN <<>>
-                    ELSE IF bs = None \/ Len(xs) <= bs THEN <<xs>>
-                    ELSE <<SubSeq(xs, 1, bs)>> \o BlocksOf(SubSeq(xs, bs + 1, Len(xs)), bs)
-\* a Sequence run on one block; Count writes the running total into the last value of the run
-SeqBlock(b, blk, before) ==
-  [j \in 1..Len(blk) |->
-     LET y == PApplyAll(blk[j], b.muts) IN
-     IF HasCnt(b) /\ j = Len(blk) THEN [y EXCEPT !.c = Put(@, CntName(b), before + Len(blk))] ELSE y]
-RECURSIVE SeqBlocks(_, _, _)
-SeqBlocks(b, blocks, before) ==
-  IF blocks = <<>> THEN <<>>
-  ELSE SeqBlock(b, Head(blocks), before) \o SeqBlocks(b, Tail(blocks), before + Len(Head(blocks)))
-Alone(b, xs, bs) ==
-  CASE b.end = "seq" -> SeqBlocks(b, BlocksOf(xs, bs), 0)
-    [] b.end = "store" -> LET k == IF b.stop = None THEN Len(xs) ELSE Min(b.stop, Len(xs))
-                          IN [j \in 1..k |-> PApplyAll(xs[j], b.muts)]
-    [] b.end = "count" -> LET n == Len(xs)
-                              c == IF n = 0 THEN <<>> ELSE PApplyAll(xs[n], b.muts).c
-                          IN <<[d |-> <<n>>, c |-> Put(c, b.name, n)]>>
-    [] b.end = "fr" -> [j \in 1..Len(xs) |-> PApplyAll(xs[j], b.muts)]
-    [] b.end = "src" -> <<[d |-> <<-1>>, c |-> <<>>], [d |-> <<-2>>, c |-> <<>>]>>
 
 (***************************************************************************)
 (* Operational machine.                                                    *)
